@@ -532,7 +532,7 @@ def gen_step(rng, case, cur):
         elif k == "narrow_method":
             if not batched or n0 == 0:
                 continue
-            d = rng.choice([0, 0, 1, -nd, 1 - nd, -1])      # (dim > 1 narrows every grid: not modelled)
+            d = rng.choice([0, 0, 1, -nd, 1 - nd])      # (spatial dims narrow every grid: not modelled, directed cases only)
             size = sh[d % nd]
             st = rng.randrange(0, size)
             op.update(dim=d, start=st, len=rng.randrange(1, size - st + 1))
@@ -783,6 +783,7 @@ def directed_cases(rng):
                 S({"op": "split_with_sizes", "sizes": [1, N - 1] if N > 1 else [1], "d": {"k": "none"}, "fn": "func"}, pick=min(1, N - 1)),
                 S({"op": "tensor_split_n", "n": 3, "d": {"k": "none"}, "fn": "func"}), S({"op": "tensor_split_n", "n": 2, "d": {"k": "none"}, "fn": "func"}, pick=1),
                 S({"op": "tensor_split_idx", "idx": [1], "d": {"k": "none"}, "fn": "func", "seq": "list"}, pick=1),
+                S({"op": "tensor_split_idx", "idx": [1], "d": {"k": "none"}, "fn": "func", "seq": "tensor"}, pick=1),
                 S({"op": "chunk", "n": 2, "d": {"k": "none"}, "fn": "func"}), S({"op": "unbind", "d": {"k": "none"}, "fn": "func"}),
                 S({"op": "getitem", "tuple": False, "ix": [{"t": "ell"}]}),
                 S({"op": "getitem", "tuple": False, "ix": [{"t": "bools", "v": [i % 2 == 0 for i in range(N)], "as": "tensor"}]}),
@@ -809,6 +810,16 @@ def directed_cases(rng):
             ]
             for s in ops:
                 case(kind, N, C if kind == "B" else len(sp), sp, [s])
+    # empty batches: slicing to N = 0, then operations on / with the empty batch
+    empty = S({"op": "getitem", "tuple": False, "ix": [{"t": "slice", "a": 0, "b": 0, "c": None}]})
+    for kind in ("B", "F"):
+        for s2 in [S({"op": "append"}, ("cur", "cur")), S({"op": "append"}, (1, "cur")), S({"op": "cat", "d": {"k": "none"}}, ("cur", 1)),
+                   S({"op": "unary", "fn": "abs"}), S({"op": "copy", "fn": "copy"}), S({"op": "getitem", "tuple": False, "ix": [{"t": "ell"}]}),
+                   S({"op": "split", "size": 2, "d": {"k": "none"}, "fn": "func"}),
+                   S({"op": "tensor_split_n", "n": 2, "d": {"k": "none"}, "fn": "func"}),
+                   S({"op": "narrow_method", "dim": 0, "start": 0, "len": 0})]:
+            case(kind, 3, 2, [3, 4], [empty, s2])
+            out[-1]["steps"][1]["cur_shape"] = [0] + out[-1]["cur"]["shape"][1:]
     for kind in ("I", "FI"):
         for C, sp in ((2, [3, 4]), (3, [2, 2, 3])):
             for s in [S({"op": "unary", "fn": "neg"}), S({"op": "copy", "fn": "copy"}), S({"op": "copy", "fn": "deepcopy"}),
@@ -817,7 +828,9 @@ def directed_cases(rng):
                       S({"op": "binary", "fn": "add"}, ("cur", 0)), S({"op": "to_batch"}),
                       S({"op": "split", "size": 1, "d": {"k": "none"}, "fn": "func"}),
                       S({"op": "getitem", "tuple": False, "ix": [{"t": "slice", "a": 0, "b": 1, "c": None}]}),
-                      S({"op": "flip", "dims": [0], "fn": "func"}), S({"op": "permute", "fn": "transpose", "d1": -1, "d2": -2})]:
+                      S({"op": "flip", "dims": [0], "fn": "func"}), S({"op": "permute", "fn": "transpose", "d1": -1, "d2": -2}),
+                      S({"op": "narrow_method", "dim": 0, "start": 0, "len": 1}), S({"op": "narrow_method", "dim": 1, "start": 0, "len": 1}),
+                      S({"op": "narrow_method", "dim": -1, "start": 0, "len": 1}), S({"op": "narrow_method", "dim": -len(sp) - 1, "start": 0, "len": 1})]:
                 case(kind, 1, C, sp, [s])
     return out
 
